@@ -612,6 +612,21 @@ def c_get_subconverter(self: Converter, prefixes: list[str]):
     ensures(all(q is not r for q in result.records for r in self.records), native=True)
 
 
+@lemma("C09.subconverter_answers_as_parent", props=["C09"])
+def l_c09_sub_answers(conv: Converter, prefixes: list[str], p: str, x: str):
+    """Over the contracts of get_subconverter and expand: on the records having a name in `prefixes` the subconverter
+    expands as the parent does, on every other prefix it does not answer at all."""
+    requires(WF(conv) and first_occ(p, conv.delimiter))
+    sub = conv.get_subconverter(prefixes)
+    assert sub.delimiter == conv.delimiter
+    e = conv.expand(p + conv.delimiter + x)
+    s = sub.expand(p + conv.delimiter + x)
+    if known(conv, p) and any(q in prefixes for q in P(owner(conv, p))):
+        assert e is not None and s == e
+    else:
+        assert s is None
+
+
 @lemma("C10.derived_mutation_does_not_leak", props=["C10"],
        bounded_only="two-step history (derive, then mutate the derived converter); the one-call frame conditions are in the contracts of the derivations")
 def l_c10_leak(conv: Converter, prefixes: list, extra: tuple):
